@@ -401,11 +401,40 @@ func c06OrderAgreement(r *core.Run, ef *errFlow, pkgs []pkgCodec) {
 			return nil
 		}
 		// before[f][g]: on some path f's first event precedes g's first event
+		// always[fn]: the fields handled on EVERY success path (nil-error return, no error edge taken)
+		always := map[*ssa.Function]map[*types.Var]bool{}
 		pairs := func(fn *ssa.Function, event func(in ssa.Instruction) *types.Var) (map[[2]*types.Var]bool, bool) {
 			before := map[[2]*types.Var]bool{}
 			complete := core.EnumPaths(fn.Blocks[0], func(b *ssa.BasicBlock) bool { return false }, nil, 20000, func(pa core.Path, ended bool) {
 				var seq []*types.Var
 				seen := map[*types.Var]bool{}
+				defer func() {
+					last := pa.Blocks[len(pa.Blocks)-1]
+					ret, isRet := last.Instrs[len(last.Instrs)-1].(*ssa.Return)
+					if !isRet || !successPath(pa) {
+						return
+					}
+					if rv := core.RetVals(ret); len(rv) == 0 || (!core.IsNil(rv[len(rv)-1]) && freshError(rv[len(rv)-1])) {
+						return
+					} else if !core.IsNil(rv[len(rv)-1]) {
+						// `return ch.WriteX(...)`: the tail call's own result — a success path when that call succeeds
+						if _, isCall := rv[len(rv)-1].(*ssa.Call); !isCall {
+							return
+						}
+					}
+					if always[fn] == nil {
+						always[fn] = map[*types.Var]bool{}
+						for f := range seen {
+							always[fn][f] = true
+						}
+						return
+					}
+					for f := range always[fn] {
+						if !seen[f] {
+							delete(always[fn], f)
+						}
+					}
+				}()
 				for _, b := range pa.Blocks {
 					for _, in := range b.Instrs {
 						if f := event(in); f != nil && !seen[f] {
@@ -464,6 +493,21 @@ func c06OrderAgreement(r *core.Run, ef *errFlow, pkgs []pkgCodec) {
 			bad = fmt.Sprintf("ReadFrom takes %s from the wire before %s, WriteTo sends %s before %s: two fields change places between writing and reading (invisible to the width comparison when they are equally wide)", pr[0].Name(), pr[1].Name(), pr[1].Name(), pr[0].Name())
 		}
 		r.Check(bad == "", "R06.12", key+": reader and writer handle the fields in the same order", pc.write.Pos(), fmt.Sprintf("%d ordered field pairs of the reader, none reversed by the writer", len(rd)), bad)
+		// R06.14: what the writer sends unconditionally the reader takes unconditionally
+		if always[pc.write] != nil && always[pc.read] != nil {
+			bad14 := ""
+			for f := range always[pc.write] {
+				if !always[pc.read][f] {
+					bad14 = "WriteTo sends " + f.Name() + " on every path, ReadFrom assigns it only on some: for the inputs on the other paths the value that was written (and consumed from the wire) is dropped, so reading back what was written does not reproduce the package"
+				}
+			}
+			var names []string
+			for f := range always[pc.write] {
+				names = append(names, f.Name())
+			}
+			sort.Strings(names)
+			r.Check(bad14 == "", "R06.14", key+": fields written unconditionally are read unconditionally", pc.read.Pos(), "unconditional on both sides: "+strings.Join(names, " "), bad14)
+		}
 	}
 	if n == 0 {
 		r.Unknown("R06.12", "reader/writer field order", token.NoPos, "no package with two recognisable fields on both sides")
